@@ -291,3 +291,178 @@ def silf_pool(r, fonts_dir, nsynth, big=False):
         except Exception:
             pass
     return pool
+
+
+# ---------------------------------------------------------------------------------------------------------------------------
+# bytecode (Machine::Code's loading constructor)
+
+def pass_codes(pb):
+    """[(is_constraint, pre_context, rule_length, bytecode)] of a well-formed pass: the pass constraint, and per rule its
+    constraint and action code; [] if the pass cannot be walked"""
+    try:
+        nrules = struct.unpack(">H", pb[4:6])[0]
+        nstates, ntrans, nsucc, ncols, nranges = struct.unpack(">5H", pb[24:34])
+        p = 40 + nranges * 6
+        p += (nsucc + 1) * 2
+        nent = struct.unpack(">H", pb[p - 2:p])[0]
+        p += nent * 2
+        minpre, maxpre = pb[p], pb[p + 1]
+        p += 2 + (maxpre - minpre + 1) * 2
+        sort = [struct.unpack(">H", pb[p + 2 * i:p + 2 * i + 2])[0] for i in range(nrules)]
+        p += 2 * nrules
+        pre = list(pb[p:p + nrules])
+        p += nrules + 1
+        pclen = struct.unpack(">H", pb[p:p + 2])[0]
+        p += 2
+        oc = [struct.unpack(">H", pb[p + 2 * i:p + 2 * i + 2])[0] for i in range(nrules + 1)]
+        p += 2 * (nrules + 1)
+        oa = [struct.unpack(">H", pb[p + 2 * i:p + 2 * i + 2])[0] for i in range(nrules + 1)]
+        p += 2 * (nrules + 1)
+        p += ntrans * ncols * 2 + 1
+        pc = pb[p:p + pclen]
+        p += pclen
+        rc = pb[p:p + oc[nrules]]
+        p += oc[nrules]
+        ac = pb[p:p + oa[nrules]]
+        out = []
+        if pclen and nrules:
+            out.append((True, pre[0], sort[0], pc))
+        # a rule's constraint runs from its offset to the next non-zero one (0 = no constraint); actions likewise
+        for i in range(nrules):
+            if oc[i] or i == 0:
+                e = next((oc[j] for j in range(i + 1, nrules + 1) if oc[j]), oc[nrules])
+                if oc[i] < e and (oc[i] or i == 0) and oc[i] != 0:
+                    out.append((True, pre[i], sort[i], rc[oc[i]:e]))
+            e = oa[i + 1]
+            if oa[i] < e:
+                out.append((False, pre[i], sort[i], ac[oa[i]:e]))
+        return [c for c in out if 0 < len(c[3]) < 600]
+    except Exception:
+        return []
+
+
+# opcode -> parameter bytes (255 = variable)
+PARAMS = {0: 0, 1: 1, 2: 1, 3: 2, 4: 2, 5: 4, 25: 0, 26: 1, 27: 0, 28: 1, 29: 3, 30: 1, 31: 0, 32: 0, 33: 255, 34: 2, 35: 1, 36: 1, 37: 1, 38: 1, 39: 2, 40: 2,
+          41: 2, 42: 3, 43: 2, 44: 2, 45: 3, 46: 3, 47: 3, 48: 0, 49: 0, 50: 0, 51: 2, 52: 2, 53: 2, 54: 1, 55: 0, 56: 5, 57: 0, 58: 0, 59: 2, 60: 3, 61: 3, 65: 4, 66: 2}
+
+
+def gen_code(r, lims):
+    """-> (is_constraint, passtype, pre_context, rule_length, bytecode): a random program that mostly passes the loader's tests
+    (stack depth kept, slot references inside the rule, numbers below the limits `lims` = (classes, gattrs, feats, user)), with
+    boundary values mixed in"""
+    classes, gattrs, feats, user = lims
+    cons = r.random() < 0.35
+    pt = r.choice([1, 2, 2, 3, 3, 4])
+    rl = r.choice([1, 2, 3, 4, 6, 10, 63]) if r.random() < 0.95 else r.choice([0, 64, 255, 300])
+    pre = (r.randrange(0, rl) if rl and r.random() < 0.9 else r.choice([0, rl, rl + 1, 255])) & 255
+    out = bytearray()
+    depth = 0
+    slot = 0                       # current slot relative to the first slot of the rule (actions)
+
+    def ref():
+        if r.random() < 0.85 and rl:
+            lo, hi = (-pre, 0) if cons else (-(slot + pre), rl - 1 - slot - pre)
+            v = r.randint(min(lo, hi), max(lo, hi)) if lo <= hi else 0
+        else:
+            v = r.choice([-128, 127, 1, -1, rl, rl - pre, -pre - 1, rl - pre - slot])
+        return v & 255
+
+    def below(n, wide=False):
+        top = 65535 if wide else 255
+        if n and r.random() < 0.85:
+            return r.randrange(0, min(n, top + 1))
+        return min(top, r.choice([n, n + 1, max(0, n - 1), top, 0]))
+
+    def attr():
+        return r.choice([0, 1, 5, 7, 14, 15, 16, 20, 29, 30, 31, 40, 54, 55, 56, 57, 60, 77, 78, 79, 255]) if r.random() < 0.3 else r.randrange(0, 30)
+
+    n = r.randrange(1, 14)
+    for _ in range(n):
+        k = r.random()
+        if k < 0.25:
+            v = r.choice([1, 2, 3, 4, 5, 54, 55])
+            out.append(v)
+            out += bytes(r.randrange(256) for _ in range(PARAMS[v]))
+            depth += 1
+        elif k < 0.37:
+            if depth >= 2 or r.random() < 0.1:
+                out.append(r.choice([6, 7, 8, 9, 10, 11, 16, 17, 19, 20, 21, 22, 23, 24, 62, 63]))
+                depth -= 1
+            elif depth >= 1:
+                out.append(r.choice([12, 13, 14, 18, 64]))
+        elif k < 0.5:
+            v = r.choice([40, 41, 42, 43, 44, 45, 46, 60, 61])
+            out.append(v)
+            if v == 40:
+                out += bytes([attr(), ref()])
+            elif v in (41, 44):
+                out += bytes([below(gattrs), ref()])
+            elif v in (42, 45):
+                out += bytes([below(12), ref(), r.randrange(256)])
+            elif v == 43:
+                out += bytes([below(feats), ref()])
+            elif v == 46:
+                a = r.choice([55, 15, 55, 3, 56])
+                out += bytes([a, ref(), below(user if a == 55 else 255 if a == 15 else 1)])
+            else:
+                g = below(gattrs, True)
+                out += bytes([g >> 8, g & 255, ref()])
+            depth += 1
+        elif cons:
+            if k < 0.62:
+                body = bytearray()
+                for _ in range(r.randrange(0, 4)):
+                    v = r.choice([1, 3, 55, 40, 43])
+                    body.append(v)
+                    body += bytes([attr() if v == 40 else below(feats) if v == 43 else r.randrange(256) for _ in range(1)] + [r.randrange(-2, 3) & 255] * (PARAMS[v] - 1))
+                sk = len(body) if r.random() < 0.85 else r.choice([len(body) + 1, max(0, len(body) - 1), 255, 0])
+                out += bytes([34, r.randrange(-pre, max(1 - pre, rl - pre)) & 255 if rl and r.random() < 0.9 else r.randrange(256), sk & 255]) + body
+        else:
+            if k < 0.6:
+                out.append(r.choice([25, 25, 27]))
+                slot += 1
+            elif k < 0.66:
+                c = below(classes, True)
+                out += bytes([59, c >> 8, c & 255]) if r.random() < 0.7 else bytes([28, below(classes)])
+            elif k < 0.72:
+                a, b = below(classes, True), below(classes, True)
+                out += bytes([56, ref(), a >> 8, a & 255, b >> 8, b & 255]) if r.random() < 0.7 else bytes([29, ref(), below(classes), below(classes)])
+            elif k < 0.78:
+                out += bytes([30, ref()])
+            elif k < 0.83:
+                out.append(31)
+                slot = max(-1, slot - 1) if r.random() < 0.5 else slot
+            elif k < 0.87:
+                out.append(32)
+            elif k < 0.91:
+                m = r.choice([1, 1, 2, 3, 0])
+                out += bytes([33, m] + [ref() for _ in range(m)])
+            elif k < 0.96:
+                if depth >= 1 or r.random() < 0.1:
+                    v = r.choice([35, 36, 37, 38])
+                    out += bytes([v, attr()])
+                    depth -= 1
+            else:
+                if depth >= 1 or r.random() < 0.1:
+                    a = r.choice([55, 15, 55, 3])
+                    out += bytes([r.choice([39, 51, 52, 53]), a, below(user if a == 55 else 255 if a == 15 else 1)])
+                    depth -= 1
+                elif r.random() < 0.5:
+                    out += bytes([66, below(feats), ref()])
+    t = r.random()
+    if t < 0.8:
+        if depth >= 1 and r.random() < 0.8:
+            out.append(48)
+        else:
+            out.append(r.choice([49, 50]))
+    elif t < 0.9:
+        out.append(r.choice([48, 49, 50, 0, 25]))
+    m = r.random()
+    if m < 0.12 and out:
+        i = r.randrange(len(out))
+        out[i] = r.choice([r.randrange(256), 67, 68, 26, 47, 57, 58, 34, 33, 255])
+    elif m < 0.18 and len(out) > 1:
+        out = out[: r.randrange(1, len(out))]
+    if not out:
+        out.append(49)
+    return cons, pt, pre, rl, bytes(out)
